@@ -1,7 +1,228 @@
 import KM.Driver.Core
-/-! Driver for C14 (stub until the property's model is built). -/
-namespace KM.Driver.C14
+import KM.Model.RateLimit
+/-! Driver for C14.
 
-def handler (_mode : String) : Option Handler := none
+Op lines (times are *gaps* to the previous op of the same section, so that a generator can be
+adjusted without renumbering):
+
+* `lim <rateMilli> <burst> <mono>`   new limiter (`mono` = 1: the gaps that follow are ≥ 0)
+* `at <gap_ns>`                        `AllowN(t, 1)` at t := t + gap
+* `seq <id>`                           new TOTP sequence: all users fresh, clock at the base time
+* `att <user> <gap_s> <counter> <good|bad|dis>`    direct `validateUserTOTP`
+* `hatt <user> <gap_s> <verify|auth> <good|bad|dis>`  through verifyTOTPHandler / TOTPAuthHandler
+
+Modes: `plan` (moves ops off exact thresholds the real clock / float64 cannot reproduce and fills in
+`auto`/`same` counters), `model`, `judge` (input: what the implementation did). -/
+namespace KM.Driver.C14
+open KM.Util KM.RateLimit
+
+structure St where
+  p : Limit := ⟨1000, 10⟩
+  b : Bucket := ⟨0, 0⟩
+  t : Int := 0
+  mono : Bool := true
+  first : Option Int := none
+  cnt : Nat := 0
+  now : Int := 0
+  users : String → Totp := fun _ => Totp.init
+  mons : String → Mon := fun _ => Mon.init
+
+/-- base of the synthetic limiter clock (ns) and of the virtual TOTP clock -/
+def bucketBase : Int := 1000000000 * sec
+def totpBase : Int := 1000000000 * sec
+/-- period counter used for calls through the HTTP handlers (they pass the real `time.Now()`) -/
+def handlerCounter : Int := 1999999999
+
+def parseCode (s : String) : Option Bool :=
+  if s == "good" then some true else if s == "bad" || s == "dis" then some false else none
+
+def newLim (st : St) (r b : Nat) (mono : Bool) : St :=
+  { st with p := ⟨r, b⟩, b := Bucket.new ⟨r, b⟩ goZeroTime, t := bucketBase, mono := mono,
+            first := none, cnt := 0 }
+
+def newSeq (st : St) : St :=
+  { st with now := totpBase, users := fun _ => Totp.init, mons := fun _ => Mon.init }
+
+def roundSecs (d : Int) : Int := (d + sec / 2) / sec
+
+def totpLine (s : Totp) (now : Int) (o : Outcome) : String :=
+  let ret := boolStr (o == .accepted)
+  let gate := boolStr (o != .spaced)
+  let frec := boolStr (o == .rejected)
+  let lock := if s.lockoutExp > now then roundSecs (s.lockoutExp - now) else 0
+  let lfAge := if s.lastFail == goZeroTime then -1 else roundSecs (now - s.lastFail)
+  s!"{ret} {gate} {frec} {s.failCount} {lock} {lfAge}"
+
+def outcomeStr : Outcome → String
+  | .spaced => "spaced" | .locked => "locked" | .replay => "replay"
+  | .accepted => "accepted" | .rejected => "rejected"
+
+/-- `burst <entry> <seq|conc> <n> <rateMilli> <burst> <pause_ms>`: what an instantaneous burst (the
+second half `pause_ms` later in `seq` mode) admits — a lower bound for the real, slower one -/
+def burstLow (mode : String) (n r b pause : Nat) : Nat :=
+  let p : Limit := ⟨r, b⟩
+  let n1 := if mode == "seq" && pause > 0 then n / 2 else n
+  let ts := List.replicate n1 bucketBase ++ List.replicate (n - n1) (bucketBase + (pause : Int) * 1000000)
+  (runBucket p (Bucket.new p goZeroTime) ts).2
+
+/-! ### model -/
+
+def modelStep (st : St) : List String → St × String
+  | ["burst", _, mode, n, r, b, pause] =>
+    match n.toNat?, r.toNat?, b.toNat?, pause.toNat? with
+    | some n, some r, some b, some pause => (st, s!"lo={burstLow mode n r b pause}")
+    | _, _, _, _ => (st, "bad-op")
+  | ["lim", r, b, m] =>
+    match r.toNat?, b.toNat?, parseBool m with
+    | some r, some b, some m => (newLim st r b m, "lim")
+    | _, _, _ => (st, "bad-op")
+  | ["at", g] =>
+    match g.toInt? with
+    | some g =>
+      let t := st.t + g
+      let r := allowStep st.p st.b t
+      ({ st with b := r.1, t := t }, boolStr r.2)
+    | none => (st, "bad-op")
+  | ["seq", _] => (newSeq st, "seq")
+  -- `catt <user> <gap_s> <counter> <n>`: n simultaneous calls with the right code; the gate is taken
+  -- under the mutex, so this is one call followed by n-1 calls that are turned away as too soon
+  | ["catt", u, g, c, n] =>
+    match g.toInt?, c.toInt?, n.toNat? with
+    | some g, some ctr, some _ =>
+      if g < 0 then (st, "bad-op") else
+      let now := st.now + g * sec
+      let r := step (st.users u) ⟨now, ctr, true⟩
+      let r2 := step r.1 ⟨now, ctr, true⟩
+      ({ st with now := now, users := upd st.users u r2.1 }, totpLine r2.1 now r.2 ++ " " ++ outcomeStr r.2)
+    | _, _, _ => (st, "bad-op")
+  | [kind, u, g, c, code] =>
+    if kind != "att" && kind != "hatt" then (st, "bad-op") else
+    let ctr : Option Int := if kind == "hatt" then
+        (if c == "verify" || c == "auth" then some handlerCounter else none) else c.toInt?
+    match g.toInt?, ctr, parseCode code with
+    | some g, some ctr, some ok =>
+      if g < 0 then (st, "bad-op") else
+      let now := st.now + g * sec
+      let r := step (st.users u) ⟨now, ctr, ok⟩
+      ({ st with now := now, users := upd st.users u r.1 }, totpLine r.1 now r.2 ++ " " ++ outcomeStr r.2)
+    | _, _, _ => (st, "bad-op")
+  | _ => (st, "bad-op")
+
+/-! ### plan: the same walk, but an op that sits on a threshold is pushed off it first -/
+
+def bumpBucket (p : Limit) (b : Bucket) (t : Int) : Nat → Int
+  | 0 => t
+  | n + 1 => if bucketMargin p b t < 60 then bumpBucket p b (t + 1) n else t
+
+def bumpTotp (s : Totp) (now : Int) : Nat → Int
+  | 0 => now
+  | n + 1 => if tight s now then bumpTotp s (now + sec) n else now
+
+def planStep (st : St) : List String → St × String
+  | ["burst", e, mode, n, r, b, pause] => (st, s!"burst {e} {mode} {n} {r} {b} {pause}")
+  | ["lim", r, b, m] =>
+    match r.toNat?, b.toNat?, parseBool m with
+    | some r', some b', some m' => (newLim st r' b' m', s!"lim {r} {b} {m}")
+    | _, _, _ => (st, "bad-op")
+  | ["at", g] =>
+    match g.toInt? with
+    | some g =>
+      let t := bumpBucket st.p st.b (st.t + g) 8
+      let r := allowStep st.p st.b t
+      ({ st with b := r.1, t := t }, s!"at {t - st.t}")
+    | none => (st, "bad-op")
+  | ["seq", k] => (newSeq st, s!"seq {k}")
+  | ["catt", u, g, c, n] =>
+    match g.toInt? with
+    | some g =>
+      if g < 0 then (st, "bad-op") else
+      let s := st.users u
+      let now := bumpTotp s (st.now + g * sec) 8
+      let ctr : Option Int :=
+        if c == "auto" then some (now / sec / (KM.Gen.C14.totpPeriod : Int)) else c.toInt?
+      match ctr with
+      | some ctr =>
+        let r := step s ⟨now, ctr, true⟩
+        let r2 := step r.1 ⟨now, ctr, true⟩
+        ({ st with now := now, users := upd st.users u r2.1 }, s!"catt {u} {(now - st.now) / sec} {ctr} {n}")
+      | none => (st, "bad-op")
+    | none => (st, "bad-op")
+  | [kind, u, g, c, code] =>
+    if kind != "att" && kind != "hatt" then (st, "bad-op") else
+    match g.toInt?, parseCode code with
+    | some g, some ok =>
+      if g < 0 then (st, "bad-op") else
+      let s := st.users u
+      let now := bumpTotp s (st.now + g * sec) 8
+      let ctr : Option Int :=
+        if kind == "hatt" then (if c == "verify" || c == "auth" then some handlerCounter else none)
+        else if c == "auto" then some (now / sec / (KM.Gen.C14.totpPeriod : Int))
+        else if c == "same" && s.lastSuccCounter != handlerCounter then some s.lastSuccCounter
+        else if c == "same" then some (now / sec / (KM.Gen.C14.totpPeriod : Int))
+        else c.toInt?
+      match ctr with
+      | some ctr =>
+        let r := step s ⟨now, ctr, ok⟩
+        let cs := if kind == "hatt" then c else toString ctr
+        ({ st with now := now, users := upd st.users u r.1 },
+         s!"{kind} {u} {(now - st.now) / sec} {cs} {code}")
+      | none => (st, "bad-op")
+    | _, _ => (st, "bad-op")
+  | _ => (st, "bad-op")
+
+/-! ### judge: the predicates of the theorems applied to what the implementation did -/
+
+def verdictStr (m : Mon) (now : Int) : Verdict → String
+  | .ok => "ok"
+  | .tooSoon => s!"viol tooSoon last_eval_ago_ns={now - (m.lastEval.getD now)}"
+  | .duringLockout =>
+    s!"viol duringLockout consecutive_failures={m.n} locked_for_another_s={((m.lockedUntil.getD now) - now) / sec}"
+
+def judgeStep (st : St) : List String → St × String
+  | ["lim", r, b, m] =>
+    match r.toNat?, b.toNat?, parseBool m with
+    | some r, some b, some m => (newLim st r b m, "ok")
+    | _, _, _ => (st, "bad-op")
+  -- `dec <gap_ns> <admitted>`: c14_bucket's bound over the window since the sequence began
+  | ["dec", g, d] =>
+    match g.toInt?, parseBool d with
+    | some g, some d =>
+      let t := st.t + g
+      let first := st.first.getD t
+      let cnt := st.cnt + (if d then 1 else 0)
+      let st' := { st with t := t, first := some first, cnt := cnt }
+      if st.mono && decide ((cnt : Int) > bucketBound st.p (t - first)) then
+        (st', s!"viol admitted={cnt} bound={bucketBound st.p (t - first)} window_ns={t - first}")
+      else (st', "ok")
+    | _, _ => (st, "bad-op")
+  -- `pw <rateMilli> <burst> <n> <backend> <r429> <bad> <elapsed_ns>`: a burst through a real entry point
+  | ["pw", r, b, n, be, r429, bad, el] =>
+    match r.toNat?, b.toNat?, n.toNat?, be.toNat?, r429.toNat?, bad.toNat?, el.toInt? with
+    | some r, some b, some n, some be, some r429, some bad, some el =>
+      if bad != 0 then (st, s!"viol responses_not_429_without_backend_or_429_with_backend={bad}")
+      else if be + r429 != n then (st, s!"viol accounted={be + r429} of={n}")
+      else if decide ((be : Int) > bucketBound ⟨r, b⟩ el) then
+        (st, s!"viol backend_calls={be} bound={bucketBound ⟨r, b⟩ el} elapsed_ns={el}")
+      else (st, "ok")
+    | _, _, _, _, _, _, _ => (st, "bad-op")
+  | ["seq", _] => (newSeq st, "ok")
+  -- `ev <user> <gap_s> <returned true> <failure recorded>`
+  | ["ev", u, g, ret, frec] =>
+    match g.toInt?, parseBool ret, parseBool frec with
+    | some g, some ret, some frec =>
+      if g < 0 then (st, "bad-op") else
+      let now := st.now + g * sec
+      let out : Outcome := if ret then .accepted else if frec then .rejected else .spaced
+      let m := st.mons u
+      let r := monStep m now out
+      ({ st with now := now, mons := upd st.mons u r.1 }, verdictStr m now r.2)
+    | _, _, _ => (st, "bad-op")
+  | _ => (st, "bad-op")
+
+def handler (mode : String) : Option Handler :=
+  if mode == "model" then some { σ := St, init := {}, step := modelStep }
+  else if mode == "plan" then some { σ := St, init := {}, step := planStep }
+  else if mode == "judge" then some { σ := St, init := {}, step := judgeStep }
+  else none
 
 end KM.Driver.C14
